@@ -528,6 +528,8 @@ def make_case(rng, kind, label_type="int"):
             cls_ = numpy.array([3.0 * c + 1.0 for c in range(k)])
         elif label_type == "bigint":
             cls_ = numpy.array([3000000000 + 7 * c for c in range(k)], dtype=numpy.int64)
+        elif label_type == "strlen":          # strings of unequal lengths, the shortest sorts first
+            cls_ = numpy.array(["a", "bb", "ccc", "dddd"][:k])
         else:
             cls_ = numpy.array(["abcd"[c] for c in range(k)])
         y = cls_[codes]
@@ -860,6 +862,16 @@ def check_recording(ctx, gen_seed, kind, label_type="int", njobs_list=(None, 1, 
                         bad.append((K_BORROW, "bucket %d: borrowed examples are not exactly one per missing class" % i,
                                     {"bucket_classes": sorted(have), "borrowed_classes": ext},
                                     {"borrowed_classes": sorted(allcl - have)}))
+            # the global fallback model is trained like a direct fit on the whole training set (weights included)
+            me = model.mean_estimator_
+            if hasattr(me, "seen_X"):
+                okm = (numpy.array_equal(me.seen_X, X) and list(map(str, me.seen_y)) == list(map(str, y))
+                       and ((me.seen_w is None) == (w is None)) and (w is None or numpy.array_equal(me.seen_w, w)))
+                if not okm:
+                    bad.append(("PiecewiseEstimator.fit:fallback-model-training-set",
+                                "the global fallback model is not trained on the whole training set with its targets and weights",
+                                {"rows": int(me.seen_X.shape[0]), "weights": None if me.seen_w is None else "given"},
+                                {"rows": int(X.shape[0]), "weights": None if w is None else "given"}))
             # dispatch: row output = its bucket's model's output, or the fallback's
             meths = ["predict"] if kind == "reg" else ["predict_proba", "decision_function"]
             for meth in meths:
@@ -1019,10 +1031,10 @@ def search(ctx, hints):
     for t in range(ctx.pick(24, 400)):
         task = "reg" if t % 2 == 0 else "clf"
         items.append({"kind": "recording", "gen_seed": rng.randrange(1 << 30), "task": task,
-                      "labels": "int" if task == "reg" else rng.choice(["int", "float", "str"])})
+                      "labels": "int" if task == "reg" else rng.choice(["int", "float", "str", "strlen"])})
     for t in range(ctx.pick(24, 300)):
         items.append({"kind": "real", "gen_seed": rng.randrange(1 << 30),
-                      "labels": ["int", "float", "str", "bigint"][t % 4]})
+                      "labels": ["int", "float", "str", "bigint", "strlen"][t % 5]})
     for t in range(ctx.pick(2, 6)):
         items.append({"kind": "schedule", "gen_seed": rng.randrange(1 << 30)})
     for it in items:
